@@ -106,8 +106,12 @@ __CPROVER_assigns(g_gai_array, g_gai_index, g_gai_calls);
 #endif
 
 /* ------------------------------------------------------------------ callee views used by the object/key helpers */
-const unsigned char *g_dup_src; size_t g_dup_n, g_dup_calls; unsigned char *g_dup_ret;
-#define GHOST_DUP g_dup_src, g_dup_n, g_dup_calls, g_dup_ret
+struct vf_dup_ghost { const unsigned char * dup_src; size_t dup_n; size_t dup_calls; unsigned char * dup_ret; } g_du;
+#define g_dup_src g_du.dup_src
+#define g_dup_n g_du.dup_n
+#define g_dup_calls g_du.dup_calls
+#define g_dup_ret g_du.dup_ret
+#define GHOST_DUP g_du
 #ifndef VF_ENF_cJSON_strdup
 /* cJSON_strdup as a callee: NULL, or a fresh block (the copy; its contents are pinned by cJSON_strdup's own unit). The source must still be readable. */
 static unsigned char* cJSON_strdup_cv(const unsigned char* string, const internal_hooks * const hooks)
@@ -141,8 +145,15 @@ __CPROVER_ensures(C14_POST(*hooks)) /*@C14*/
 __CPROVER_assigns(GHOST_ALLOC);
 
 /* ------------------------------------------------------------------ add_item_to_object (key handling; C06, C07 aliasing, C08) */
-cJSON *g_aito_object, *g_aito_item; const char *g_aito_string; const internal_hooks *g_aito_hooks; cJSON_bool g_aito_const, g_aito_ret; size_t g_aito_calls;
-#define GHOST_AITO g_aito_object, g_aito_item, g_aito_string, g_aito_hooks, g_aito_const, g_aito_ret, g_aito_calls
+struct vf_aito_ghost { cJSON * aito_object; cJSON * aito_item; const char * aito_string; const internal_hooks * aito_hooks; cJSON_bool aito_const; cJSON_bool aito_ret; size_t aito_calls; } g_ao;
+#define g_aito_object g_ao.aito_object
+#define g_aito_item g_ao.aito_item
+#define g_aito_string g_ao.aito_string
+#define g_aito_hooks g_ao.aito_hooks
+#define g_aito_const g_ao.aito_const
+#define g_aito_ret g_ao.aito_ret
+#define g_aito_calls g_ao.aito_calls
+#define GHOST_AITO g_ao
 _Bool g_alias;   /* ghost: the key argument is the item's own current key (C07: "a key ... may alias memory of the item being added") */
 #define AITO_REFUSED (object == NULL || string == NULL || item == NULL || object == item)
 #define OLD_KEY_OWNED (!(__CPROVER_old(item->type) & cJSON_StringIsConst) && __CPROVER_old(item->string) != NULL)
@@ -188,7 +199,7 @@ __CPROVER_ensures(g_cr_calls == 1 && g_aito_calls == 1 && g_aito_object == objec
 __CPROVER_ensures(g_aito_ret ? (RET == g_cr_ret && g_del_calls == 0) : (RET == NULL && g_del_calls == 1 && g_del_arg == g_cr_ret)) /*@C06 C08 C07*/ \
 __CPROVER_ensures(RET == NULL ==> LIVE_SAME) /*@C08*/ \
 __CPROVER_ensures(C14_POST(global_hooks)) /*@C14*/ \
-__CPROVER_assigns(g_cr_ret, g_cr_calls, g_del_arg, g_del_calls, GHOST_AITO, GHOST_ALLOC; object != NULL: object->child);
+__CPROVER_assigns(g_cr_ret, g_cr_calls, GHOST_DEL, GHOST_AITO, GHOST_ALLOC; object != NULL: object->child);
 #ifdef VF_CREATE_VIEWS
 ADD_HELPER(cJSON_AddNullToObject, (cJSON * const object, const char * const name))
 ADD_HELPER(cJSON_AddTrueToObject, (cJSON * const object, const char * const name))
@@ -210,7 +221,7 @@ __CPROVER_ensures(RET != NULL ==> (__CPROVER_is_fresh(RET, sizeof(cJSON)) && NOD
 __CPROVER_ensures(RET == NULL ==> (LIVE_SAME && (g_dup_calls == 0 || (g_dup_ret == NULL && g_del_calls == 1)))) /*@C08 C07*/ \
 __CPROVER_ensures(arg == NULL ==> RET == NULL) /*@C06*/ \
 __CPROVER_ensures(C14_POST(global_hooks)) /*@C14*/ \
-__CPROVER_assigns(GHOST_DUP, g_del_arg, g_del_calls, GHOST_ALLOC);
+__CPROVER_assigns(GHOST_DUP, GHOST_DEL, GHOST_ALLOC);
 CREATE_STR_CONTRACT(cJSON_CreateString, string, cJSON_String)
 CREATE_STR_CONTRACT(cJSON_CreateRaw, raw, cJSON_Raw)
 #endif
@@ -257,7 +268,7 @@ __CPROVER_ensures((object != NULL && string != NULL) ==> (g_cr_calls == 1 && g_r
 /* C08: when the call fails nothing allocated during it remains (the reference node included) */
 __CPROVER_ensures(!RET ==> LIVE_SAME) /*@C08 C07*/
 __CPROVER_ensures(C14_POST(global_hooks)) /*@C14*/
-__CPROVER_assigns(g_cr_ret, g_cr_calls, g_ref_src, g_ref_hooks, g_del_arg, g_del_calls, GHOST_AITO, GHOST_ALLOC; object != NULL: object->child);
+__CPROVER_assigns(g_cr_ret, g_cr_calls, g_ref_src, g_ref_hooks, GHOST_DEL, GHOST_AITO, GHOST_ALLOC; object != NULL: object->child);
 
 /* ------------------------------------------------------------------ callee views: cJSON_free, get_object_item, cJSON_ReplaceItemViaPointer */
 void *g_free_arg; size_t g_free_calls;
